@@ -441,6 +441,25 @@ func init() {
 
 var decRi = decPool[3]
 
+var stanzaTypeOf = map[string]string{"Xr": "X25519", "Xd": "X25519", "Xi": "X25519", "Sr": "scrypt", "Er": "ssh-ed25519", "Ed": "ssh-ed25519", "Ei": "ssh-ed25519",
+	"Rr": "ssh-rsa", "Rd": "ssh-rsa", "Ri": "ssh-rsa"}
+
+// stanzaTypes: the stanza types, in order, of a file this encrypting template writes.
+func (t *tmpl) stanzaTypes() []string {
+	names := t.recs
+	switch {
+	case t.list != "":
+		names = recListDef[t.list]
+	case t.kind == "derive":
+		names = []string{t.drv}
+	}
+	var out []string
+	for _, n := range names {
+		out = append(out, stanzaTypeOf[n])
+	}
+	return out
+}
+
 func (t *tmpl) keyName() string {
 	if t.key != "" {
 		return t.key
@@ -487,8 +506,68 @@ func opsPerG(G int) int {
 // io.Reader that Encrypt / Decrypt return, and none of it may change the result
 // of this or of any other operation.
 var encVariants = []string{"plain", "plain", "close-twice", "close+deferred-close", "write-after-close", "zero-length-writes",
-	"abandoned-extra-writer", "zero-length-writes+close-twice"}
+	"abandoned-extra-writer", "zero-length-writes+close-twice", "refused-call-first", "refused-call-first"}
 var decVariants = []string{"plain", "read-past-eof", "zero-length-reads", "zero-length-reads+read-past-eof"}
+
+// Recipients that make Encrypt refuse a call part-way.
+type failingRecipient struct{}
+
+func (failingRecipient) Wrap([]byte) ([]*age.Stanza, error) {
+	return nil, errors.New("c20: this recipient always fails")
+}
+
+type labelledRecipient struct{}
+
+func (labelledRecipient) Wrap(fk []byte) ([]*age.Stanza, error) {
+	return []*age.Stanza{{Type: "c20-labelled", Args: []string{"x"}, Body: []byte{1, 2, 3}}}, nil
+}
+
+func (l labelledRecipient) WrapWithLabels(fk []byte) ([]*age.Stanza, []string, error) {
+	s, err := l.Wrap(fk)
+	return s, []string{"c20-label"}, err
+}
+
+type countWriter struct{ n int }
+
+func (c *countWriter) Write(p []byte) (int, error) { c.n += len(p); return len(p), nil }
+
+// refusedCall issues an Encrypt that must be refused after at least one of the
+// shared recipients was wrapped (or, kind 3, before anything), and checks that
+// it returned an error and wrote nothing.
+func refusedCall(w *world, base []age.Recipient, kind int) (string, string) {
+	var recs []age.Recipient
+	name := ""
+	isS := len(base) == 1 && base[0] == w.rec["Sr"]
+	switch kind % 5 {
+	case 0:
+		name = "passphrase-recipient-not-alone"
+		if isS {
+			recs = []age.Recipient{w.rec["Xr"], w.rec["Sr"]}
+		} else {
+			recs = append(append(recs, base...), w.rec["Sr"])
+		}
+	case 1:
+		name = "last-recipient-fails-to-wrap"
+		recs = append(append(recs, base...), failingRecipient{})
+	case 2:
+		name = "differing-label-sets"
+		recs = append(append(recs, base...), labelledRecipient{})
+	case 3:
+		name = "no-recipients"
+	case 4:
+		name = "third-recipient-fails-to-wrap"
+		recs = append(append(recs, base...), w.rec["Xr"], failingRecipient{}, w.rec["Er"])
+	}
+	var sink countWriter
+	wc, err := age.Encrypt(&sink, recs...)
+	switch {
+	case err == nil || wc != nil:
+		return "refused-call-accepted", fmt.Sprintf("Encrypt with %s returned (%v, %v)", name, wc != nil, err)
+	case sink.n != 0:
+		return "refused-call-wrote-bytes", fmt.Sprintf("Encrypt with %s was refused (%v) but wrote %d bytes", name, err, sink.n)
+	}
+	return "", ""
+}
 
 func encDoubleClose(v int) bool {
 	n := encVariants[v%len(encVariants)]
@@ -637,6 +716,15 @@ func execOp(w *world, op *opInst, pt []byte, rng *rand.Rand) {
 		buf := bytes.NewBuffer(op.scratch[:0])
 		dst := &mon.PerturbWriter{W: cw{buf, &op.io}, Rng: rng}
 		op.call = tick.Add(1)
+		if vn == "refused-call-first" {
+			// a refused call, then the successful one on the same goroutine
+			if cl, what := refusedCall(w, w.recipients(op.t), rng.Intn(5)); cl != "" {
+				op.head = tick.Load()
+				op.ret = tick.Add(1)
+				op.fail, op.failWhat = cl, what
+				return
+			}
+		}
 		if vn == "abandoned-extra-writer" {
 			// a stream that is started and then dropped without Close
 			var junk bytes.Buffer
@@ -830,7 +918,7 @@ func runRound(w *world, jb *job, no, G, P, size int, mix string) *roundOut {
 			start = rrng.Intn(len(pool))
 		}
 		for j := 0; j < per; j++ {
-			op := &opInst{t: pool[(start+j)%len(pool)], g: g, j: j, variant: rrng.Intn(8)}
+			op := &opInst{t: pool[(start+j)%len(pool)], g: g, j: j, variant: rrng.Intn(20)}
 			plans[g] = append(plans[g], op)
 			all = append(all, op)
 		}
@@ -982,6 +1070,14 @@ func runRound(w *world, jb *job, no, G, P, size int, mix string) *roundOut {
 			}
 			if !bytes.Equal(o.Plaintext, pts[op.g]) {
 				op.fail, op.failWhat = "plaintext-differs", fmt.Sprintf("reference key %s: %d bytes, own plaintext has %d", rk, len(o.Plaintext), len(pts[op.g]))
+				return
+			}
+			var got []string
+			for _, st := range o.Header.Stanzas {
+				got = append(got, st.Type)
+			}
+			if want := op.t.stanzaTypes(); strings.Join(got, ",") != strings.Join(want, ",") {
+				op.fail, op.failWhat = "header-stanzas", fmt.Sprintf("the header has stanzas [%s], the recipient list of this call yields [%s]", strings.Join(got, ","), strings.Join(want, ","))
 				return
 			}
 		}
